@@ -1,5 +1,6 @@
 """Property -> rules table. Each rule callable: (prog, tier, repo) -> [RuleResult]."""
 from .rules import traversal_instances as TI
+from .rules import printer_rules
 from .rules import gate, lookup_unwrap, heap, witness, incremental, optimizer, const_arith, shape, backend, printer_rules, comment_linear, enum_evidence, ssa_shared, lex_bounds, gc_rules, scope, eval_order, guard_table, relation, type_walker, str_slice, loc_guard, sweep_window
 
 PROPERTIES = {}
@@ -72,7 +73,7 @@ prop('C06', COMMON +
      'over the checker\'s Type (validation of instantiations, substitution, placeholder search) reads every child position '
      '(type arguments, parameter types, return type).',
      [gate.run_gate, gate.run_errset, gate.run_assign_all_paths, lex_bounds.run_int_range, scope.run_iflet_else,
-      lambda prog, tier, repo: scope.run_reentrant_restore(prog, tier, repo, crates=('samlang_checker',)), relation.run, gate.run_exhaustive_gate, type_walker.make(('samlang_checker',), 6), TI.make(['T-chk', 'T-ssa'])])
+      lambda prog, tier, repo: scope.run_reentrant_restore(prog, tier, repo, crates=('samlang_checker',)), relation.run, gate.run_exhaustive_gate, gate.run_placeholder_ordinal, type_walker.make(('samlang_checker',), 6), TI.make(['T-chk', 'T-ssa'])])
 
 prop('C08', COMMON +
      'TRAVERSAL/SIBLING: the pretty-printer reads every expression, pattern, annotation, identifier and literal slot of '
@@ -85,7 +86,7 @@ prop('C08', COMMON +
      'precedence decider; the plain printer may take a left operand only behind an equal-precedence test and a right operand '
      'only behind same-operator + associative-operator tests (reported as the known regrouping finding). TYPE-WALKER: the '
      'annotation printer visits every child position. Does not decide layout.',
-     [printer_rules.run_prec_iso, printer_rules.run_literal_parity, printer_rules.run_paren_assoc, printer_rules.run_paren_sink, type_walker.make(('samlang_printer',), 1), TI.make(['T-prt'])])
+     [printer_rules.run_prec_iso, printer_rules.run_literal_parity, printer_rules.run_paren_assoc, printer_rules.run_paren_sink, printer_rules.run_pattern_parens, type_walker.make(('samlang_printer',), 1), TI.make(['T-prt'])])
 
 prop('C09', COMMON +
      'Clause "every comment is kept". COMMENT-LINEAR: linear-resource typestate dataflow over the parser MIR (Vec<Comment> '
@@ -110,7 +111,7 @@ prop('C11', COMMON +
      'server_state module mutates those maps, and UPDATE-ORDER (shared with C10) checks that the mutators insert/remove '
      'all per-module maps under the same keys. POP-MUST-MARK: in the GC driver every module reference popped from the '
      'unmarked set is looked up and marked on every path before the next pop or return.',
-     [TI.make(['T-gc']), gc_rules.run, lookup_unwrap.run, lookup_unwrap.run_writers, incremental.run_order,
+     [TI.make(['T-gc']), gc_rules.run, gc_rules.run_gc_roots, gc_rules.run_store_pairing, lookup_unwrap.run, lookup_unwrap.run_writers, incremental.run_order,
       witness.run_for(['WState'], 'C11: outside samlang-services the state maps cannot be written (compile-fail witnesses)')],
      ['A-11.1: a field read by the marker family is actually passed to Heap::mark (read, not checked)',
       'A-11.2: every PStr held in parsed_modules/global_cx/errors also occurs in some checked module'])
@@ -122,7 +123,7 @@ prop('C15', COMMON +
      'scope resolver). NAV-VIA-SSA: every path of a navigation query that handles a local-name hit passes through the SSA '
      'lookup. LOC-GUARD: a cursor-position test gating the descent into a child tests a location of that child or of a node '
      'containing it (sibling locations only where the parser provably widens them). Does not decide capture-freedom of the new name or behavioural identity after rename.',
-     [ssa_shared.run, ssa_shared.run_nav_via_ssa, loc_guard.run, scope.run_iflet_else, TI.make(['T-ren', 'T-ssa'])])
+     [ssa_shared.run, ssa_shared.run_nav_via_ssa, ssa_shared.run_ident_alphabet, printer_rules.run_pattern_parens, loc_guard.run, scope.run_iflet_else, TI.make(['T-ren', 'T-ssa'])])
 
 # properties whose reports on the unchanged tree are not yet triaged are not claimed
 import os as _os
@@ -153,7 +154,7 @@ prop('C10', COMMON +
      'overwriting errors[m]), DIRTY-COVERS (the dirty set handed to affected_set is built from every request component '
      'under which parsed_modules is mutated; every module announced to recheck as re-parsed is parsed on every path). '
      'Does not decide that the affected set is large enough (graph semantics).',
-     [incremental.run_sigkey, incremental.run_order, incremental.run_errors, incremental.run_dirty],
+     [incremental.run_sigkey, incremental.run_order, incremental.run_errors, incremental.run_dirty, gc_rules.run_gc_roots],
      ['affected_set (forward closure of the reverse closure of the dirty set) contains every module whose diagnostics can change'])
 
 prop('C03', COMMON +
